@@ -67,7 +67,7 @@ def parse_playback(out):
 # failed checks that are *expected* loud stops of the code under test in "must stop" harnesses
 ALLOWED = {
     "c20_memory::c20_memory_rejects": [r"memory access out of bounds", r"memory access is unaligned", r"attempt to add with overflow"],
-    "c20_memory::c20_memory_dangling_frame": [r"assertion failed: frame\.id == p\.stack_id", r"assertion `left == right` failed", r"index out of bounds"],
+    "c20_memory::c20_memory_dangling_frame": [r"assertion failed: frame\.id == p\.stack_id", r"assertion `left == right` failed", r"index out of bounds", r"assert_eq!/assert_ne! failed"],
 }
 
 
